@@ -716,4 +716,5 @@ RULES += [
 
 # the text a driver emits for a number is num_to_str(current value, own format) on every history (no stale rendering)
 # a number text sent to a property is converted by the library's own parser with the element's format
-IMPORTS = [('C07', 'C07.META'), ('C06', 'C06.CONV')]
+# C03.READ: the number text of a part reaches the conversion as it was sent (interior blanks are sexagesimal separators)
+IMPORTS = [('C07', 'C07.META'), ('C06', 'C06.CONV'), ('C03', 'C03.READ')]
